@@ -221,7 +221,7 @@ impl Hooks for H {
             // 21..40 links (the link count survives an RCU-walk restart), so a
             // disagreement in which exactly one side says ELOOP is the kernel
             // disagreeing with itself; it is counted, not reported.
-            if self.kernel_backend && detail.contains("ELOOP") && (clause == "errno-differs" || clause.starts_with("library-")) {
+            if self.kernel_backend && (detail.contains("ELOOP") || detail.contains("errno: 40")) {
                 ctx.out.probe("kernel_eloop_disagrees_with_itself");
                 self.nontrivial.push((rec.idx, true));
                 return;
